@@ -41,6 +41,15 @@ CLAIMED = {
              "mode never consults the document, summary counts = number of denials per key, order-independent. Tied to the real listener: "
              "sequences and concurrent bursts of requests, get_all_failed_connection_summary() compared per key.",
         design="§7 C11", technique=E2E_TECH),
+    "C13": dict(
+        text="Lean theorems for the modelled panic sites: the char-boundary truncation is total, bounded by the cap, a prefix, maximal, and "
+             "equal to the old slice wherever the old slice did not panic; utf-16 unit decoding is total and agrees with the old code on "
+             "even-length frames; the header-value text conversion is total; no path of the request-handling model ends in a panic. "
+             "Kernel-checked negative witnesses show the pre-fix code panicking (fixed in /repo by three fix: commits). Tied to the real "
+             "write_event / get_module_status / read_response_body (function level, panics caught) and to the real listener with "
+             "non-ASCII header bytes, long multi-byte command lines, long URLs, repeated headers; process-wide panic hook + liveness probe. "
+             "Whole-agent panic freedom is not a theorem (partial).",
+        design="§7 C13, §8 F7", technique=E2E_TECH),
     "C14": dict(
         text="Lean theorems: relayed request keeps method/target/body and every client header but the three proxy-owned names; relayed "
              "response keeps status/body/headers plus exactly one marker; i-th response answers i-th request. Tied to the real listener "
